@@ -117,6 +117,13 @@ type c16DNS struct {
 	log   []string
 	sink  func(name string) // optional: told of every SRV question as it arrives
 	hosts map[string]string // optional: A records (lower-case name -> IPv4 address)
+	// SRV answers may change: an entry stored under the service name followed by "@2" replaces
+	// the plain one from the second lookup of that question on (a question repeated at once by
+	// the resolver, after SERVFAIL, is the same lookup)
+	asked        map[string]int
+	lastSRVQ     string
+	lastWasError bool
+	lastWasRetry bool
 }
 
 type c16DNSConn struct {
@@ -179,10 +186,27 @@ func (d *c16DNS) answer(q []byte) ([]byte, error) {
 	}
 	qtype := binary.BigEndian.Uint16(q[i+1 : i+3])
 	name := strings.Join(labels, ".")
-	e, known := d.table[strings.ToLower(name)]
+	key := strings.ToLower(name)
+	e, known := d.table[key]
 	if qtype == 33 {
+		if d.asked == nil {
+			d.asked = map[string]int{}
+		}
+		// the resolver asks again at once only after an error answer: that is the same lookup
+		again := d.lastSRVQ == key && d.lastWasError && !d.lastWasRetry // (the resolver makes two attempts)
+		d.lastWasRetry = again
+		if !again {
+			d.asked[key]++
+		}
+		d.lastSRVQ = key
+		if d.asked[key] >= 2 {
+			if e2, ok := d.table[strings.Replace(key, "._tcp.", "@2._tcp.", 1)]; ok {
+				e, known = e2, true
+			}
+		}
+		d.lastWasError = known && (e.kind == "servfail" || e.kind == "refused" || e.kind == "writeerr")
 		d.log = append(d.log, name)
-		if d.sink != nil {
+		if d.sink != nil && !again {
 			d.sink(name)
 		}
 	}
@@ -708,7 +732,6 @@ func init() {
 						resp.Body.Close()
 					}
 				}
-				srv.dedupeProbes()
 				if ok {
 					srv.event("RT ok")
 				} else {
@@ -737,6 +760,7 @@ type c16TLSServer struct {
 	servers       []*http.Server
 	wk            c16Reply // what the port-443 server answers to the .well-known request
 	wkName        string
+	wkServed      int
 }
 
 // a listener that reports every accepted connection with the LOCAL address it arrived at
@@ -855,8 +879,19 @@ func newC16TLSServer() (*c16TLSServer, error) {
 					w.Header().Add("Cache-Control", line)
 				}
 			}
+			body := s.wk.body
+			if parts := strings.Split(string(body), "\n@2\n"); len(parts) == 2 { // the reply changes after the first request
+				s.mu.Lock()
+				s.wkServed++
+				n := s.wkServed
+				s.mu.Unlock()
+				body = []byte(parts[0])
+				if n >= 2 {
+					body = []byte(parts[1])
+				}
+			}
 			w.WriteHeader(s.wk.status)
-			_, _ = w.Write(s.wk.body)
+			_, _ = w.Write(body)
 		})}
 	s.servers = append(s.servers, wkServer)
 	go func() {
@@ -900,6 +935,7 @@ func (s *c16TLSServer) reset() {
 	s.sni = map[string]string{}
 	s.wk = c16Reply{}
 	s.wkName = ""
+	s.wkServed = 0
 }
 
 func (s *c16TLSServer) close() {
@@ -918,7 +954,7 @@ func (s *c16TLSServer) logFrom(i int) []string {
 func c16KnownNames(name string, body []byte) map[string]string {
 	keyNames := map[string]string{}
 	known := []string{name}
-	if m := c16ServerRe.FindSubmatch(body); m != nil {
+	for _, m := range c16ServerRe.FindAllSubmatch(body, -1) {
 		known = append(known, string(m[1]))
 	}
 	for _, kn := range known {
@@ -945,7 +981,9 @@ func c16LoadSRV(args [][]byte, i int, d *c16DNS, keyNames map[string]string, fin
 			i += 3
 		}
 		d.table[srvKey(svc, qn)] = e
-		keyNames[srvKey(svc, qn)] = "P S " + svc + " " + qn
+		if base := strings.TrimSuffix(svc, "@2"); true {
+			keyNames[srvKey(base, qn)] = "P S " + base + " " + qn
+		}
 		class := map[string]string{"ok": "ok", "nxdomain": "notfound", "nodata": "notfound",
 			"servfail": "error", "refused": "error", "writeerr": "error"}[kind]
 		final = append(final, svcB, qnB, B(class), B(strconv.Itoa(n)))
@@ -1704,13 +1742,21 @@ func genC16RoundTrip(c *Ctx) {
 		{"wk->invalid, srv", "example.com", "1", to("https://delegate.example.net"), [][]string{{"matrix-fed", "example.com", "ok", "fed.target.example", "PORT", "10"}}},
 		{"wk->invalid, 8448", "example.com", "1", to("not a server name"), nil},
 		{"wk->invalid trailing slash", "example.com", "1", to("delegate.example.net:8448/"), nil},
+		// the answers change between the first resolution and the one made for the retry / the next round trip
+		{"srv moves dead->live", "example.com", "1", none, [][]string{{"matrix-fed", "example.com", "ok", "a.target.example", "CLOSED", "10"}, {"matrix-fed@2", "example.com", "ok", "fed.target.example", "PORT", "10"}}},
+		{"srv moves live->other", "example.com", "1", none, [][]string{{"matrix-fed", "example.com", "ok", "a.target.example", "PORT", "10"}, {"matrix-fed@2", "example.com", "ok", "fed.target.example", "PORT", "10"}}},
+		{"srv disappears", "example.com", "1", none, [][]string{{"matrix-fed", "example.com", "ok", "a.target.example", "CLOSED", "10"}, {"matrix-fed@2", "example.com", "nxdomain"}}},
+		{"srv appears", "example.com", "1", none, [][]string{{"matrix-fed@2", "example.com", "ok", "fed.target.example", "PORT", "10"}}},
+		{"wk delegate moves", "example.com", "1", to("delegate.example.net:CLOSED\"}\n@2\n{\"m.server\":\"delegate.example.net:PORT"), nil},
+		{"wk delegation appears", "example.com", "1", to("not a server name\"}\n@2\n{\"m.server\":\"delegate.example.net:PORT"), nil},
+		{"wk delegation becomes invalid", "example.com", "1", to("delegate.example.net:CLOSED\"}\n@2\n{\"m.server\":\"bad name"), nil},
 		{"lookups-off name+port", "example.com:PORT", "0", none, nil},
 		{"lookups-off ip+port", "127.0.0.3:PORT", "0", none, nil},
 	}
 	// example.com (the well-known host) lives at 127.0.0.2, everything a request can end up at
 	// at 127.0.0.3 (literals) or 127.0.0.4 (delegates and SRV targets)
 	hosts := []string{"example.com", "127.0.0.2", "delegate.example.net", "127.0.0.4", "fed.target.example", "127.0.0.4",
-		"a.target.example", "127.0.0.4", "decoy.example", "127.0.0.5", "redirected.example", "127.0.0.6"}
+		"a.target.example", "127.0.0.7", "decoy.example", "127.0.0.5", "redirected.example", "127.0.0.6"}
 	all := []string{"0.0.0.0/0", "::/0"}
 	policies := []struct {
 		label       string
@@ -1718,9 +1764,9 @@ func genC16RoundTrip(c *Ctx) {
 	}{
 		{"open", all, nil},
 		{"well-known host denied", all, []string{"127.0.0.2/32"}},
-		{"targets denied", all, []string{"127.0.0.3/32", "127.0.0.4/32"}},
+		{"targets denied", all, []string{"127.0.0.3/32", "127.0.0.4/32", "127.0.0.7/32"}},
 		{"both denied", all, []string{"bad", "127.0.0.2/31", "127.0.0.4/32"}},
-		{"only the targets allowed", []string{"127.0.0.3/32", "127.0.0.4/32"}, nil},
+		{"only the targets allowed", []string{"127.0.0.3/32", "127.0.0.4/32", "127.0.0.7/32"}, nil},
 		{"loopback denied", all, []string{"127.0.0.0/8"}},
 	}
 	mk := func(p plan, k, nrt int, allow, deny []string) [][]byte {
